@@ -7,13 +7,18 @@ Grammar product on the real ``HistParametricModel`` / ``HistFit``:
           every parameter point;
   order   refinement ladder n, 2n, 4n uniform bins on a fixed interval for every quadrature rule x non-exact density x point;
   fit     HistFit(data, density, bin_evaluation, density flag) x ALL histories of length <= L over {set_all_parameter_values,
-          set_parameter_values, data = other container / numpy histogram, read model, read eval_model_function_density}.
+          set_parameter_values, data = other container / numpy histogram, read model, read eval_model_function_density};
+  fitx    the same with data whose entries lie partly OUTSIDE the bin range (underflow only, overflow only incl. an entry on the
+          last edge, both with pending entries, manual heights with underflow / overflow) as initial data and as replacement
+          data, histories one op shorter: a density model is scaled by ALL entries of the container (n_entries).
 
 Oracle: exact bin integrals (rational arithmetic / 40 digit mpmath, kmc/c13_densities.py) for everything that the statement
 declares exact (antiderivative callable, vectorised antiderivative: 1e-12; scipy quad: 1e-8; Simpson / trapezoid / midpoint on
 polynomials of degree <= 3 / 1 / 1: 1e-12), NOT exact one degree higher, observed convergence orders 4 / 2 / 2 (+-0.3); values
-of a quadrature rule outside its exactness class are compared with a fresh model built at the current parameters and edges
-(history independence), whose own values are pinned by the exactness classes and the convergence order.
+of a quadrature rule outside its exactness class are compared with the textbook rule of that NAME evaluated in plain python
+on the density (midpoint = rectangle: w f(m); trapezoid: w (f(a) + f(b)) / 2; Simpson: w (f(a) + 4 f(m) + f(b)) / 6) at the
+current parameters and edges - this fixes nodes, weights and the sign of the error term per method name and is history
+independent.  Fresh models are built for every spelling of a method string (lower / upper / capitalised).
 """
 import collections
 import itertools
@@ -30,14 +35,15 @@ RULE = (
     "executions = one history on a fresh real object: (model) binning x density x bin_evaluation x density flag x op sequence "
     "over {parameters = p_i, read data, rebin} with every read compared bin by bin; (order) one refinement ladder of three "
     "fresh models; (fit) HistFit x op sequence over {set parameters, replace data (other binning, other number of entries), "
-    "read model, read density}.  states = distinct (object kind, density, method, flag, edges, parameter point, number of "
+    "read model, read density}; (fitx) the same with data that has underflow / overflow entries, as initial and as replacement "
+    "data.  states = distinct (object kind, density, method, flag, edges, parameter point, number of "
     "entries) configurations read; non-trivial = history with >= 1 change of parameters / edges / data before a read whose "
-    "expected value differs from the previous read's"
+    "expected value differs from the previous read's, or (fitx) a density-scaled model read on data with out-of-range entries"
 )
 ASSUMPTIONS = [
-    "'number of entries' of a HistFit = all entries of the data container; only containers without underflow/overflow entries are generated (whether out-of-range entries count is left open by the statement)",
+    "'number of entries' of a HistFit = ALL entries of the data container, those in the underflow / overflow included (HistContainer.n_entries, 'the number of data points' of the HistFit docstring; a density normalised on the real axis predicts N_total x bin integral per bin)",
     "exactness tolerance 1e-12 is relative to (bin width x max |density| at the bin's edges and centre); for the antiderivative methods also to |F| at the edges (rounding of the user's antiderivative is not kafe2's); quad: 1e-8 of the largest bin scale",
-    "outside its exactness class a quadrature rule is only required to be history independent (equal to a fresh model at the same parameters and edges), to be inexact one degree above its class and to converge at its textbook order",
+    "outside its exactness class a quadrature rule named by bin_evaluation must be that textbook rule (one panel per bin: midpoint = rectangle w f(m), trapezoid w (f(a) + f(b)) / 2, Simpson w (f(a) + 4 f(m) + f(b)) / 6; 1e-12 of bin width x max |density|) at the current parameters and edges, be inexact one degree above its class and converge at its textbook order; method strings are case-insensitive (kafe2 lower-cases them)",
     "convergence order is measured on the sum over bins of |bin content - exact integral| for 32/64/128 uniform bins",
     "parameters are assigned as new list objects (in-place mutation of a list kafe2 holds is an unnotified external change)",
 ]
@@ -86,13 +92,16 @@ def rebin_target(binning, v, which):
     return _map(v, new)
 
 
-def bin_eval(density, method):
+SPELLINGS = ("lower", "upper", "capital")
+
+
+def bin_eval(density, method, spelling="lower"):
     d = D.DENSITIES[density]
     if method == "antiderivative":
         return d.F
     if method == "vectorized":
         return np.vectorize(d.Fs)
-    return method
+    return {"lower": method, "upper": method.upper(), "capital": method.capitalize()}[spelling]
 
 
 # ---------------------------------------------------------------------------------------
@@ -115,18 +124,29 @@ def is_exact_class(density, method):
     return deg is not None and deg <= EXACT_DEGREE[method]
 
 
-_FRESH = {}
+_RULE = {}
 
 
-def fresh_values(density, method, params, edges):
-    """Bin contents of a freshly built real model (differential reference outside the exactness classes)."""
-    from kafe2.fit.histogram.model import HistParametricModel
-
+def rule_bins(density, method, params, edges):
+    """The textbook quadrature rule called ``method`` (one panel per bin) applied to the density, in plain python floats -
+    independent reference for nodes, weights and thereby the sign and size of the error outside the exactness class."""
     key = (density, method, tuple(params), tuple(edges))
-    if key not in _FRESH:
-        m = HistParametricModel(len(edges) - 1, (edges[0], edges[-1]), D.DENSITIES[density].f, list(params), bin_edges=list(edges), bin_evaluation=bin_eval(density, method))
-        _FRESH[key] = [float(x) for x in m.data]
-    return _FRESH[key]
+    if key not in _RULE:
+        f = D.DENSITIES[density].f
+        out = []
+        for a, b in zip(edges[:-1], edges[1:]):
+            w = b - a
+            fa, fm, fb = float(f(a, *params)), float(f(0.5 * (a + b), *params)), float(f(b, *params))
+            if method in ("rectangle", "midpoint"):
+                out.append(w * fm)
+            elif method == "trapezoid":
+                out.append(w * (fa + fb) / 2.0)
+            elif method == "simpson":
+                out.append(w * (fa + 4.0 * fm + fb) / 6.0)
+            else:
+                raise KeyError(method)
+        _RULE[key] = out
+    return _RULE[key]
 
 
 def expected_bins(density, method, params, edges):
@@ -143,8 +163,8 @@ def expected_bins(density, method, params, edges):
         else:
             tol = [T_EXACT * s for s in sc]
         return exp, tol, "exact"
-    exp = fresh_values(density, method, params, edges)
-    return exp, [T_EXACT * s for s in sc], "fresh"
+    exp = rule_bins(density, method, params, edges)
+    return exp, [T_EXACT * s for s in sc], "rule"
 
 
 def compare(act, exp, tol, factor=1.0):
@@ -177,7 +197,7 @@ def textbook_error(method, c, a, b):
 
 
 class ModelWorld(object):
-    def __init__(self, binning, density, method, flag, v, p_init=0):
+    def __init__(self, binning, density, method, flag, v, p_init=0, spelling="lower"):
         from kafe2.fit.histogram.model import HistParametricModel
 
         self.binning, self.density, self.method, self.flag, self.v = binning, density, method, flag, v
@@ -187,7 +207,7 @@ class ModelWorld(object):
         self.params = self.points[p_init]
         e, form = self.edges, BINNINGS[binning][1]
         d = D.DENSITIES[density]
-        kw = dict(bin_evaluation=bin_eval(density, method), density=flag)
+        kw = dict(bin_evaluation=bin_eval(density, method, spelling), density=flag)
         if form == "range":
             self.m = HistParametricModel(len(e) - 1, (e[0], e[-1]), d.f, list(self.params), **kw)
         elif form == "inner":
@@ -262,6 +282,13 @@ FIT_ENTRIES = {
     "D1": [-0.25, 0.0, 0.5, 0.75, 1.25, 1.5, 1.75, 2.25, 2.5, 3.0, 3.25],
 }
 FIT_HEIGHTS = {"D2": [3, 0, 2, 4]}
+# data with entries outside the bin range: name -> (edges, entries) or (edges, heights, underflow, overflow)
+FIT_OUTSIDE = {
+    "U0": ("D0", [-2.0, -0.125, 0.25, 0.5, 1.25, 2.0, 2.75]),  # underflow only
+    "O0": ("D0", [0.25, 1.25, 1.5, 2.625, 3.0, 3.0, 3.5, 40.0]),  # overflow only, two entries exactly on the last edge
+    "B1": ("D1", [-7.0, -0.75, -0.25, 0.0, 0.5, 1.25, 1.5, 2.25, 3.25, 3.5, 3.75, 4.0, 9.0]),  # both
+    "B2": ("D2", [3, 0, 2, 4], 2, 5),  # manual heights with underflow and overflow
+}
 
 
 class FitWorld13(object):
@@ -283,6 +310,18 @@ class FitWorld13(object):
         """-> (object for HistFit, edges, number of entries)"""
         k2 = self.k2
         base = which.rstrip("p")
+        if base in FIT_OUTSIDE:
+            spec = FIT_OUTSIDE[base]
+            e = _map(self.v, FIT_EDGES[spec[0]])
+            c = k2.HistContainer(n_bins=len(e) - 1, bin_range=(e[0], e[-1]), bin_edges=list(e))
+            if len(spec) == 2:
+                ent = _map(self.v, spec[1])
+                c.fill(list(ent))
+                if not which.endswith("p"):
+                    c.data  # bin the entries before the container is handed over ('p' = still pending)
+                return c, e, len(ent)
+            c.set_bins(list(spec[1]), underflow=spec[2], overflow=spec[3])
+            return c, e, sum(spec[1]) + spec[2] + spec[3]
         e = _map(self.v, FIT_EDGES[base])
         if base in FIT_ENTRIES:
             ent = _map(self.v, FIT_ENTRIES[base])
@@ -329,6 +368,19 @@ class FitWorld13(object):
 FIT_OPS = [("setall", 1), ("setall", 2), ("setone", 2), ("data", "D1"), ("data", "D2"), ("data", "D0p"), ("read", "model"), ("read", "density")]
 FIT_FINAL = (("read", "model"), ("read", "density"), ("read", "density-at", 1), ("read", "model"))
 FIT_INIT = ("D0", "D2", "D1p")
+# second fit family: data with underflow / overflow entries, as initial data and as replacement data
+FIT_OPS_X = [("data", "U0"), ("data", "O0p"), ("data", "B1"), ("data", "B2")]
+FIT_INIT_X = ("U0", "O0", "B1p", "B2")
+
+
+def fitx_histories(tier):
+    """(initial data, op sequence) of the out-of-range family: every initial data set x every sequence of length <= L - 1 over
+    FIT_OPS + FIT_OPS_X that is not already part of the in-range family (i.e. out-of-range data occurs at least once)."""
+    L = depth(tier, "fit") - 1
+    for init in FIT_INIT_X + FIT_INIT:
+        for ops in _seqs(FIT_OPS + FIT_OPS_X, L):
+            if init in FIT_INIT_X or any(o in FIT_OPS_X for o in ops):
+                yield init, ops
 
 
 # ---------------------------------------------------------------------------------------
@@ -361,8 +413,12 @@ def bound(tier, seed):
         "over {parameters = p0|p1|p2, read, rebin other edges, rebin refined} + final read, plus fresh models at all 3 parameter "
         "points; order: ladder %s bins for every (quadrature rule, density outside its exactness class, parameter point); fit: 9 "
         "densities x 7 methods x density flag x 3 initial data sets (container with binned entries / with pending entries / numpy "
-        "histogram) x ALL op sequences of length <= %d over 8 ops + 4 final reads; valuation %d"
-        % (depth(tier, "model"), "/".join(str(n) for n in LADDER), depth(tier, "fit"), seed % 3)
+        "histogram) x ALL op sequences of length <= %d over 8 ops + 4 final reads; fitx: the same x (4 initial data sets with "
+        "underflow / overflow entries + the 3 in-range ones) x ALL op sequences of length <= %d over these 8 ops + 4 replacement data "
+        "sets with underflow / overflow entries (underflow only, overflow only incl. entries on the last edge and pending, both, "
+        "manual heights with underflow and overflow) in which out-of-range data occurs; fresh models also for the upper-case and "
+        "capitalised spelling of every method string; valuation %d"
+        % (depth(tier, "model"), "/".join(str(n) for n in LADDER), depth(tier, "fit"), depth(tier, "fit") - 1, seed % 3)
     )
 
 
@@ -413,15 +469,17 @@ def run_job(spec):
             for flag in (True, False):
                 # fresh models at every parameter point (+ exactness-class guards)
                 for p in range(3):
-                    cfg = (binning, density, method, flag, v, p)
-                    make = _maker("model", cfg)
-                    out, reads = run_history(make, (), res)
-                    res.observe((cfg, reads))
-                    _book(res, "model", cfg, (), reads, out)
-                    if out:
-                        _report(res, seen, "model", cfg, make, (), (("read",),), out[0])
-                    elif flag:
-                        _guard_inexact(res, seen, cfg, reads)
+                    for sp in SPELLINGS if isinstance(bin_eval(density, method), str) else SPELLINGS[:1]:
+                        cfg = (binning, density, method, flag, v, p) + ((sp,) if sp != "lower" else ())
+                        make = _maker("model", cfg)
+                        out, reads = run_history(make, (), res)
+                        res.observe((cfg, reads))
+                        _book(res, "model", cfg, (), reads, out)
+                        res.facts["model:spelling:" + sp] += 1
+                        if out:
+                            _report(res, seen, "model", cfg, make, (), (("read",),), out[0])
+                        elif flag:
+                            _guard_inexact(res, seen, cfg, reads)
                 cfg = (binning, density, method, flag, v, 0)
                 make = _maker("model", cfg)
                 for ops in _seqs(MODEL_OPS, L):
@@ -445,6 +503,20 @@ def run_job(spec):
                     _book(res, "fit", cfg, ops, reads, out)
                     if out:
                         _report(res, seen, "fit", cfg, make, ops, FIT_FINAL, out[0])
+            for init, ops in fitx_histories(tier):
+                cfg = (density, method, flag, v, init)
+                make = _maker("fit", cfg)
+                out, reads = run_history(make, ops, res, final=FIT_FINAL)
+                res.observe((cfg, ops, reads))
+                _book(res, "fit", cfg, ops, reads, out)
+                res.facts["fitx:init:" + init] += 1
+                if flag and not out:
+                    res.nontriv(("fitx", cfg, ops))
+                for o in ops:
+                    if o in FIT_OPS_X:
+                        res.facts["fitx:data:" + o[1]] += 1
+                if out:
+                    _report(res, seen, "fit", cfg, make, ops, FIT_FINAL, out[0])
         res.max_depth = L
     res.sample(dict(job=list(spec), executions=res.executions, evaluations=res.evaluations), cap=1)
     return res.as_dict()
@@ -452,8 +524,9 @@ def run_job(spec):
 
 def _maker(kind, cfg):
     if kind == "model":
-        binning, density, method, flag, v, p = cfg
-        return lambda: ModelWorld(binning, density, method, flag, v, p)
+        binning, density, method, flag, v, p = cfg[:6]
+        spelling = cfg[6] if len(cfg) > 6 else "lower"
+        return lambda: ModelWorld(binning, density, method, flag, v, p, spelling)
     density, method, flag, v, init = cfg
     return lambda: FitWorld13(density, method, flag, v, init)
 
@@ -487,7 +560,7 @@ def _book(res, kind, cfg, ops, reads, out):
 
 def _guard_inexact(res, seen, cfg, reads):
     """A rule must NOT be exact for the monomial one degree above its exactness class."""
-    binning, density, method, flag, v, p = cfg
+    binning, density, method, flag, v, p = cfg[:6]
     deg = D.DENSITIES[density].degree
     if method not in EXACT_DEGREE or deg != EXACT_DEGREE[method] + 1:
         return
@@ -589,9 +662,13 @@ def vacuity_guards(tot, tier):
     for m in METHODS:
         yield "method %s read on model and fit level" % m, f.get("model:method:" + m, 0) > 0 and f.get("fit:method:" + m, 0) > 0
     for m in EXACT_DEGREE:
-        yield "rule %s: exact-class reads, differential reads, inexactness guard and order ladder all exercised" % m, all(
-            f.get(k, 0) > 0 for k in ("oracle:exact:" + m, "oracle:fresh:" + m, "guard:inexact:" + m, "order:" + m)
+        yield "rule %s: exact-class reads, textbook-rule reads, inexactness guard and order ladder all exercised" % m, all(
+            f.get(k, 0) > 0 for k in ("oracle:exact:" + m, "oracle:rule:" + m, "guard:inexact:" + m, "order:" + m)
         )
     yield "all densities", all(f.get("model:density:" + d, 0) > 0 for d in D.DENSITIES)
+    yield "fit data with underflow only, overflow only, both and manual heights, as initial and as replacement data", all(
+        f.get("fitx:init:" + k, 0) > 0 for k in FIT_INIT_X
+    ) and all(f.get("fitx:data:" + o[1], 0) > 0 for o in FIT_OPS_X)
+    yield "method strings in lower / upper / capitalised spelling", all(f.get("model:spelling:" + k, 0) > 0 for k in SPELLINGS)
     yield "both density flags on fit level", f.get("fit:flag:True", 0) > 0 and f.get("fit:flag:False", 0) > 0
     yield "reads after a change of parameters / edges / data with a different expected value", f.get("model:read-after-change", 0) > 0 and f.get("fit:read-after-change", 0) > 0
